@@ -30,7 +30,13 @@ where
     }
 
     fn get_slice(&self, region: ARegion, block_check: BlockCheck) -> Result<Cow<[u8]>> {
-        debug_assert!(region.end().force_into_usize() <= self.as_ref().len());
+        if region.end().into_u64() + block_check.size() as u64 > self.as_ref().len() as u64 {
+            return Err(format_error!(format!(
+                "Out of slice. {} > {}",
+                region.end(),
+                self.as_ref().len()
+            )));
+        }
         if let BlockCheck::Crc32 = block_check {
             let full_slice = &self.as_ref()[region.begin().force_into_usize()
                 ..region.end().force_into_usize() + BlockCheck::Crc32.size()];
